@@ -312,7 +312,7 @@ impl Property for P {
     }
     fn cases(tier: Tier) -> u64 {
         match tier {
-            Tier::Quick => 8_000,
+            Tier::Quick => 40_000,
             Tier::Thorough => 300_000,
         }
     }
